@@ -24,9 +24,21 @@ open Streams
         `<t>:<ret>:d`       returned and finished its script
         `<t>:-`             thread already finished (decision ignored)
       followed by `| a=<Available> s=<bitset>`
-  mon conc …   same scenario; answer `ok` iff the property's monitors (ids unique and in range, no
-      panic, Available = free ids at the end) hold along the run, `n/a` if the scripts do not respect
-      the client protocol (a Clear of an id that is not held, or two Clears of one id)
+  mon conc …   same scenario; answer `ok` iff the property's monitors hold along the run.
+      ALL scenarios (no client protocol assumed; theorems C08_count_any, C08_release_conservation,
+      C08_reserved_and_range_any, C08_no_negative_partial, C08_clear_noop):
+        per id x:  #Clear(x) that returned true (or panicked 'negative' after clearing the bit) + [bit x set at the end]
+                   = #GetStream that returned x + [bit x set after the prefix P]
+        Available() at the end = number of zero bits of the bitset
+        an id handed out is in 1..NumStreams-1 as long as Clear(0) has not been called
+        'negative streams inuse' panic only after an excluded event (Clear(0) called, or a Clear CAS that
+        cleared the bit of an id whose GetStream had not returned yet); index panic only for id >= NumStreams
+      scenarios whose scripts respect the client protocol (every Clear names an id in use after P, no id is
+      named twice; static criterion) additionally: ids unique among held ids, no panic at all,
+      Available = NumStreams-1-#held at the end
+  smon <proto> <op> …   (ops g, c<id>, a, G<cnt>) sequential spec monitor (`Streams.specCheck`, theorem
+      C08_sequential_spec): `ok` iff every answer is allowed by the abstract id-set specification and
+      Available() = NumStreams-1-#held after EVERY op; `n/a` if the ops contain c0 (excluded case)
 -/
 
 def hexWord (w : Word) : String := String.ofList (Nat.toDigits 16 w.toNat)
@@ -101,6 +113,14 @@ structure Conc where
   st : State
   scripts : List (List SOp)
   mine : List (List Nat)
+  /-- events of the run (`Streams.evOf`) -/
+  evs : List Ev := []
+  /-- `Clear(0)` has been called -/
+  c0 : Bool := false
+  /-- an excluded action (`¬ Streams.calm`) has happened -/
+  excl : Bool := false
+  /-- a monitor of the protocol-free theorems fired on the model run (never: Proofs/C08) -/
+  viol : Bool := false
 
 def resolve (mine : List Nat) : SOp → Op × List Nat
   | .op o => (o, mine)
@@ -135,7 +155,18 @@ def concStep (c : Conc) (t : Nat) : Conc × String :=
         let mine'' := match r with
           | some (.stream id true) => id :: mine'
           | _ => mine'
-        let c' : Conc := { st := st', scripts := c.scripts.set t script', mine := c.mine.set t mine'' }
+        let c0' := c.c0 || !noClear0 c.st a
+        let excl' := c.excl || !calm c.st a
+        let cap := 64 * c.st.sh.words.length
+        let bad := match r with
+          | some (.stream id true) => !c0' && (id == 0 || decide (cap ≤ id))
+          | some .crashNegative => !excl'
+          | some .crashIndex => (match a with
+              | .start _ (.clear id) => decide (id < cap)
+              | _ => true)
+          | _ => false
+        let c' : Conc := { st := st', scripts := c.scripts.set t script', mine := c.mine.set t mine'',
+                           evs := evOf c.st a ++ c.evs, c0 := c0', excl := excl', viol := c.viol || bad }
         match r with
         | some _ => (c', toString t ++ ":" ++ showRet r ++ ":" ++ nextYield script' mine'')
         | none => (c', toString t ++ ":y" ++ toString ((st'.threads.getD t .idle).yieldPoint))
@@ -200,7 +231,7 @@ def clearIds (scripts : List (List SOp)) : List Nat :=
 
 /-- result of a lock-step scenario: observations, final machine state, whether the scripts respect
     the client protocol of the property (static criterion, the same as in the harness) -/
-def runConc (cache : Cache) (proto k : Nat) (rest : List String) : Cache × Option (List String × State × Bool) :=
+def runConc (cache : Cache) (proto k : Nat) (rest : List String) : Cache × Option (List String × State × Bool × Conc × List Word) :=
   -- rest = P pre… T ops… T ops… S digits
   match rest with
   | "P" :: rest =>
@@ -217,20 +248,53 @@ def runConc (cache : Cache) (proto k : Nat) (rest : List String) : Cache × Opti
       let cl := clearIds scripts
       let protocol := cl.all (fun id => inuse0.contains id) && cl.eraseDups.length == cl.length
       let st0 : State := { sh := sh, threads := List.replicate k .idle, held := inuse0 }
-      let c0 : Conc := { st := st0, scripts := scripts, mine := List.replicate k [] }
+      let c0 : Conc := { st := st0, scripts := scripts, mine := List.replicate k [],
+                         c0 := pre.contains "c0", excl := pre.contains "c0" }
       let (c1, acc) := sched.foldl (fun (p : Conc × List String) t =>
           let (c', o) := concStep p.1 t; (c', o :: p.2)) (c0, [])
       let (c2, acc) := finishAll c1 k acc
-      (cache', some (acc.reverse, c2.st, protocol))
+      (cache', some (acc.reverse, c2.st, protocol, c2, sh.words))
     | (cache', _), _ => (cache', none)
   | _ => (cache, none)
+
+/-- `l.Nodup ∧ ∀ id ∈ l, 1 ≤ id < cap`, in linear time (a table of the ids seen) -/
+def nodupInRange (cap : Nat) (l : List Nat) : Bool :=
+  (l.foldl (fun (p : Array Bool × Bool) id =>
+      if !p.2 then p
+      else if id < 1 || cap ≤ id || p.1.getD id false then (p.1, false)
+      else (p.1.setIfInBounds id true, true)) (Array.replicate cap false, true)).2
 
 /-- the property's monitors evaluated on the model run (they can never fire: Proofs/C08) -/
 def monitorsOk (obs : List String) (st : State) : Bool :=
   let n := 64 * st.sh.words.length
-  decide st.held.Nodup && st.held.all (fun id => 1 ≤ id && id < n)
+  nodupInRange n st.held
     && decide (available st.sh = ((n - 1 - st.held.length : Nat) : Int))
     && obs.all (fun o => !(o.splitOn "crash").length > 1)
+
+/-- number of set bits -/
+def popcount (ws : List Word) : Nat :=
+  ws.foldl (fun acc w => if w = 0#64 then acc else (List.range 64).foldl (fun a j => if w.getLsbD j then a + 1 else a) acc) 0
+
+def clrId (ws : List Word) (id : Nat) : List Word := ws.set (id / 64) (ws.getD (id / 64) 0 &&& ~~~ mask id)
+
+/-- the monitors of the protocol-free theorems evaluated on the model run -/
+def monitorsAny (c : Conc) (w0 : List Word) : Bool :=
+  let ws := c.st.sh.words
+  let cap := 64 * ws.length
+  let ids := (c.evs.map (fun e => match e with | .got id => id | .released id => id)).eraseDups
+  let b2n (b : Bool) : Nat := if b then 1 else 0
+  !c.viol
+    && ids.all (fun x => c.evs.count (.released x) + b2n (bitAt ws x) == c.evs.count (.got x) + b2n (bitAt w0 x))
+    && ids.foldl clrId ws == ids.foldl clrId w0
+    && decide (available c.st.sh = ((cap - popcount ws : Nat) : Int))
+
+def parseSeqOps : List String → Option (List Op)
+  | [] => some []
+  | w :: ws =>
+    match (if w.startsWith "G" then (w.drop 1).toNat?.map (fun c => List.replicate c Op.get) else (parseOp w).map (fun o => [o])),
+          parseSeqOps ws with
+    | some a, some b => some (a ++ b)
+    | _, _ => none
 
 def step (cache : Cache) (ws : List String) : Cache × String :=
   match ws with
@@ -246,7 +310,7 @@ def step (cache : Cache) (ws : List String) : Cache × String :=
     match p.toNat?, k.toNat? with
     | some proto, some k =>
       match runConc cache proto k rest with
-      | (cache', some (obs, st, _)) =>
+      | (cache', some (obs, st, _, _, _)) =>
         (cache', " ".intercalate obs ++ " | a=" ++ toString (available st.sh) ++ " " ++ showState st.sh.words)
       | (cache', none) => (cache', "bad-op")
     | _, _ => (cache, "bad-op")
@@ -255,9 +319,17 @@ def step (cache : Cache) (ws : List String) : Cache × String :=
     match p.toNat?, k.toNat? with
     | some proto, some k =>
       match runConc cache proto k rest with
-      | (cache', some (obs, st, protocol)) =>
-        (cache', if !protocol then "n/a" else if monitorsOk obs st then "ok" else "violated:model")
+      | (cache', some (obs, st, protocol, c, w0)) =>
+        (cache', if monitorsAny c w0 && (!protocol || monitorsOk obs st) then "ok" else "violated:model")
       | (cache', none) => (cache', "bad-op")
+    | _, _ => (cache, "bad-op")
+  | "smon" :: p :: ops =>
+    match p.toNat?, parseSeqOps ops with
+    | some proto, some l =>
+      if l.contains (.clear 0) then (cache, "n/a")
+      else
+        let n := wordsOfProto proto
+        (cache, if seqMon (64 * n) (Streams.init n) (specInit (64 * n)).tbl 0 l then "ok" else "violated:model")
     | _, _ => (cache, "bad-op")
   | _ => (cache, "bad-op")
 
